@@ -40,7 +40,7 @@ def run(chk: harness.Check):
         "AisleConf::ingredients_info. D2: on the MIR of aisle::parse, each HashSet::insert into used_categories / used_names is dominated by a "
         "HashSet::get of the same key expression in the same set, is unreachable from its found outcome (which builds the Duplicate* error), and the "
         "names/categories that are stored have the same trimming in their lineage as the keys that were checked. D3: calc_span returns "
-        "Span::new(offset_from(s.as_ptr(), input.as_ptr()), that + s.len()). Necessary conditions; the write∘parse round trip is not decided.")
+        "Span::new(offset_from(s.as_ptr(), input.as_ptr()), that + s.len()). D4: ingredients_info builds every IngredientInfo with common_name = names.first() of the iterated line, category = the enclosing category's name, and inserts it under the iterated name. Necessary conditions; the write∘parse round trip is not decided.")
     chk.trusted = ["tables/panics.toml, narrow_arith.toml, progress.toml", "HashSet::get/insert semantics"]
     ents = []
     for s in ("cooklang::aisle::parse", "cooklang::aisle::write", "cooklang::aisle::AisleConf::ingredients_info", "cooklang::aisle::AisleConf::reverse"):
@@ -58,6 +58,52 @@ def run(chk: harness.Check):
     c03.d3_progress(chk, F, pid="C11", only_regions=regions)
     d2_duplicates(chk, F)
     d3_spans(chk, F)
+    d4_lookup(chk, F)
+
+
+def d4_lookup(chk, F):
+    """Looking a name up returns its category and the FIRST name of its line: every IngredientInfo built by
+    ingredients_info takes common_name from `names.first()` (or names[0]) of the line being iterated, category from the
+    enclosing category's name, and is inserted under the iterated name itself."""
+    from cfgq import aggregates, calls_to
+    from flow import resolve, leaves, show
+    fs = [g for g in F.find("aisle::AisleConf::ingredients_info") if not g.is_closure()]
+    if len(fs) != 1:
+        chk.fail("anchor-missing", "ingredients_info", "", "anchor-missing: AisleConf::ingredients_info not found")
+        return
+    f = fs[0]
+    aggs = aggregates(F, f.key, "aisle::IngredientInfo")
+    chk.floor("C11.D4-lookup", "IngredientInfo constructions", len(aggs), 1, f"{f.file}:{f.line}")
+    WALK = ("IntoIterator>::into_iter", "Iterator>::next", "Deref>::deref", "<impl [T]>::iter", "Index<I>>::index", "SliceIndex<[T]>>::index")
+    for ff, i, st, d in aggs:
+        where = f"{ff.file}:{st.get('line')}"
+        e = resolve(ff, d["common_name"])
+        txt = show(e, -50)
+        calls = [l[5:] for l in leaves(e) if l.startswith("call:")]
+        extra = [c for c in calls if not any(c.endswith(w) for w in WALK) and not c.endswith("<impl [T]>::first")]
+        first = any(c.endswith("<impl [T]>::first") for c in calls) or ("index" in txt and "lit:0" in txt)
+        ok = first and not extra and ".names" in txt
+        chk.expect(ok, "C11.D4-lookup", "ingredients_info|common_name", where,
+                   f"common_name must be the first name of the line (names.first()); it is {txt[:140]}" + (f" — through {extra[:3]}" if extra else ""),
+                   sample=f"{where}: common_name = igr.names.first()")
+        e = resolve(ff, d["category"])
+        txt = show(e, -50)
+        ok = ".categories" in txt and txt.rstrip(")").endswith(".name") and ".ingredients" not in txt
+        chk.expect(ok, "C11.D4-lookup", "ingredients_info|category", where, f"category must be the name of the enclosing category; it is {txt[:120]}",
+                   sample=f"{where}: category = cat.name")
+        e = resolve(ff, d["name"])
+        ntxt = show(e, -50)
+        ok = ".names" in ntxt and not any(c.endswith("first") for c in [l for l in leaves(e)])
+        chk.expect(ok, "C11.D4-lookup", "ingredients_info|name", where, f"name must be the iterated name of the line; it is {ntxt[:120]}",
+                   sample=f"{where}: name = each of igr.names")
+    ins = [(b, t) for b, t in calls_to(f, "::insert") if len(t.get("args", [])) == 3]
+    chk.floor("C11.D4-lookup", "map inserts", len(ins), 1, f"{f.file}:{f.line}")
+    for b, t in ins:
+        k = show(resolve(f, t["args"][1]), -50)
+        v = resolve(f, t["args"][2])
+        ok = ".names" in k and "first" not in k and v[0] == "agg"
+        chk.expect(ok, "C11.D4-lookup", "ingredients_info|key", f.where(b), f"the map key must be the iterated name; it is {k[:120]}",
+                   sample=f"{f.where(b)}: map.insert(*name, info)")
 
 
 def d2_duplicates(chk, F):
